@@ -27,12 +27,12 @@ package zenodb
 // C10: every point belongs to exactly one partition: partitionFor returns a partition number in [0, NumPartitions).
 //@ func (*DB).partitionFor
 //@   requires db != nil && h != nil && db.opts != nil && db.opts.NumPartitions > 0
-//@   modifies *
+//@   modifies nothing
 //@   ensures in_range: 0 <= result && result < old(db.opts.NumPartitions)
 
 //@ func (*DB).inPartition
 //@   requires db != nil && h != nil && db.opts != nil && db.opts.NumPartitions > 0
-//@   modifies *
+//@   modifies nothing
 //@   capture pf Int = result 0 of call partitionFor
 //@   ensures iff: result == (pf == partition)
 
@@ -86,3 +86,43 @@ package zenodb
 //@   modifies *
 //@   callback Panic noreturn
 //@   at call (*zenodb.fileStore).flush assert every_tenth: callarg7 == ((rs.flushCount - 1) % 10 == 9)
+
+// C01/C14/C10: admission of one WAL entry. The entry's time is decoded from its first 8 bytes; the point reaches
+// doInsert only if it is not older than truncateBefore() (retention guard), only if a follower's partition test
+// accepted it, with exactly that timestamp, with private copies of exactly the entry's dims and vals bytes and with the entry's WAL
+// offset and source, and the partition test is made on the entry's dims bytes with the table's
+// partition keys and this node's partition number.
+//@ func (*table).insert
+//@   requires t != nil && t.db != nil && h != nil && t.db.opts != nil && (isFollower ==> t.db.opts.NumPartitions > 0)
+//@   modifies *
+//@   capture tb Int = result 0 of call (*zenodb.table).truncateBefore
+//@   capture ts Int = result 0 of call encoding.TimeFromBytes
+//@   capture inPart Bool = result 0 of call (*zenodb.DB).inPartition
+//@   at call encoding.TimeFromBytes assert ts_from_header: obj(callarg0) == obj(data) && off(callarg0) == off(data) && len(callarg0) == 8
+//@   at call (*zenodb.DB).inPartition assert partition_on_dims: obj(callarg2) == obj(data) && off(callarg2) == off(data) + 12 && len(callarg2) == u32At(data, 8) && callarg3 == t.PartitionBy && callarg4 == t.db.opts.Partition
+//@   at call (*zenodb.table).doInsert assert not_expired: captured(tb) && abs(ts) >= abs(tb)
+//@   at call (*zenodb.table).doInsert assert ts_is_entry_time: captured(ts) && callarg1 == ts
+//@   at call (*zenodb.table).doInsert assert in_partition: isFollower ==> captured(inPart) && inPart
+//@   at call (*zenodb.table).doInsert assert dims_are_entry_dims: len(callarg2) == u32At(data, 8) && (forall i in 0..len(callarg2) :: callarg2[i] == data[12+i])
+//@   at call (*zenodb.table).doInsert assert vals_are_entry_vals: len(callarg3) == u32At(data, 12 + u32At(data, 8)) && (forall i in 0..len(callarg3) :: callarg3[i] == data[16+u32At(data, 8)+i])
+//@   at call (*zenodb.table).doInsert assert copies_fresh: fresh(callarg2) && fresh(callarg3)
+//@   at call (*zenodb.table).doInsert assert copies_apart: obj(callarg2) != obj(callarg3)
+//@   at call (*zenodb.table).doInsert assert offset_source_kept: callarg4 == offset && callarg5 == source
+
+// truncateBefore reads the clock and the table options; it writes nothing the admission test depends on.
+//@ func (*table).truncateBefore
+//@   modifies nothing
+
+// C01/C14 (one accepted point): the WHERE test comes first - a point it rejects neither advances the clock nor reaches
+// the row store; the clock is advanced to the point's own time; every row handed to the row store carries the point's
+// timestamp, the WAL offset and source it came with and the full dims as metadata.
+//@ func (*table).doInsert
+//@   requires ts_in_range: unixNano(ts) == clamp64(unixNano(ts))
+//@   modifies *
+//@   capture tsp Slice = result 0 of call encoding.NewTSParams
+//@   at call vtime.Clock.Advance assert clock_after_where: where == nil || unboxBool(ok)
+//@   at call vtime.Clock.Advance assert clock_to_point_time: callarg1 == ts
+//@   at call encoding.NewTSParams assert ts_kept: callarg0 == ts
+//@   at call (*zenodb.rowStore).insert assert where_passed: where == nil || unboxBool(ok)
+//@   at call (*zenodb.rowStore).insert assert row_fields: callarg1.vals == tsp && callarg1.metadata == dims && callarg1.offset == offset && callarg1.source == source && callarg1.key == key
+//@   at call (*zenodb.rowStore).insert assert row_time: untilOf(callarg1.vals) == abs(ts)
